@@ -404,3 +404,135 @@ func RenameAll(m *Module, f func(kind, old string) string) (undo func()) {
 		}
 	}
 }
+
+// ShadowEdit renames function-scope variables (parameters, var / let / const locals) to names of module-scope
+// declarations, without capturing any reference - a meaning-neutral edit that exercises scope handling:
+//
+//	(a) a local whose initialiser is the only place in its function that mentions module-scope declaration G is renamed
+//	    to G's name (`let C = C * 2u;`: the initialiser still sees the module-scope C);
+//	(b) a parameter or local is renamed to the name of a module-scope constant, variable or function that its function
+//	    does not mention at all.
+//
+// Returns an undo function and the number of renames.
+func ShadowEdit(m *Module, r interface{ Intn(int) int }, maxPerFunc int) (undo func(), n int) {
+	type sv struct {
+		p *string
+		v string
+	}
+	var saved []sv
+	set := func(v *Var, name string) {
+		saved = append(saved, sv{&v.Name, v.Name})
+		v.Name = name
+		n++
+	}
+	// module-scope names
+	type modDecl struct {
+		name string
+		v    *Var
+		f    *Func
+	}
+	var mods []modDecl
+	for i := range m.Decls {
+		d := &m.Decls[i]
+		switch {
+		case d.Var != nil:
+			mods = append(mods, modDecl{name: d.Var.Name, v: d.Var})
+		case d.Func != nil && d.Func.Stage == "":
+			mods = append(mods, modDecl{name: d.Func.Name, f: d.Func})
+		}
+	}
+	var aliases []*Var
+	for i := range m.Decls {
+		f := m.Decls[i].Func
+		if f == nil {
+			continue
+		}
+		// references of the function to module-scope declarations (by name)
+		refCount := map[string]int{}
+		note := func(e Expr) {
+			switch x := e.(type) {
+			case *Ref:
+				if x.V.Alias != nil {
+					aliases = append(aliases, x.V)
+				}
+				refCount[x.V.Name]++
+			case *CallE:
+				refCount[x.F.Name]++
+			}
+		}
+		var locals []*VarDecl
+		WalkStmts(f.Body, func(s Stmt) {
+			if vd, ok := s.(*VarDecl); ok && vd.V.Alias == nil {
+				locals = append(locals, vd)
+			}
+		}, note)
+		for k := 0; k < 3; k++ {
+			if f.WG[k] != nil {
+				WalkExpr(f.WG[k], note)
+			}
+		}
+		done := 0
+		usedNames := map[string]bool{}
+		// (a) self-shadowing initialisers
+		for _, vd := range locals {
+			if done >= maxPerFunc || vd.Init == nil || r.Intn(2) == 0 {
+				continue
+			}
+			inInit := map[string]int{}
+			WalkExpr(vd.Init, func(e Expr) {
+				if x, ok := e.(*Ref); ok && x.V.Module && (x.V.Kind == VConst || x.V.Kind == VGlobal || x.V.Kind == VOverride) {
+					inInit[x.V.Name]++
+				}
+			})
+			for name, c := range inInit {
+				if c == refCount[name] && !usedNames[name] && name != vd.V.Name {
+					set(vd.V, name)
+					usedNames[name] = true
+					done++
+					break
+				}
+			}
+		}
+		// (b) names of module-scope declarations the function never mentions
+		var free []string
+		for _, md := range mods {
+			if refCount[md.name] == 0 && !usedNames[md.name] && md.f != f {
+				free = append(free, md.name)
+			}
+		}
+		cands := append([]*Var(nil), f.Params...)
+		for _, vd := range locals {
+			cands = append(cands, vd.V)
+		}
+		for _, v := range cands {
+			if done >= maxPerFunc || len(free) == 0 {
+				break
+			}
+			already := false
+			for _, s := range saved {
+				if s.p == &v.Name {
+					already = true
+				}
+			}
+			if already || r.Intn(3) != 0 {
+				continue
+			}
+			k := r.Intn(len(free))
+			set(v, free[k])
+			usedNames[free[k]] = true
+			free = append(free[:k], free[k+1:]...)
+			done++
+		}
+	}
+	for _, a := range aliases {
+		if a.Name != a.Alias.Name {
+			saved = append(saved, sv{&a.Name, a.Name})
+			a.Name = a.Alias.Name
+		}
+	}
+	return func() {
+		for i := len(saved) - 1; i >= 0; i-- {
+			*saved[i].p = saved[i].v
+		}
+	}, n
+}
